@@ -31,6 +31,11 @@ pub const H_QF: u8 = 8;
 pub const H_QE: u8 = 9;
 pub const H_QL: u8 = 10;
 pub const H_QS: u8 = 11;
+pub const H_QM: u8 = 12;
+pub const H_QNL: u8 = 13;
+pub const H_QLQ: u8 = 14;
+
+pub static MANY: [Item; 300] = [Item::U8(7); 300];
 
 pub fn framing_tree() -> TreeSpec {
     TreeSpec::root(vec![
@@ -44,6 +49,9 @@ pub fn framing_tree() -> TreeSpec {
         TreeSpec::leaf("QERR", H_QE),
         TreeSpec::leaf("QLONg", H_QL),
         TreeSpec::leaf("QSEMi", H_QS),
+        TreeSpec::leaf("QMANy", H_QM),
+        TreeSpec::leaf("QNL", H_QNL),
+        TreeSpec::leaf("QLQ", H_QLQ),
         TreeSpec::branch("BR", vec![TreeSpec::dleaf("BQ", H_BQ), TreeSpec::leaf("BE", H_BE)]),
         TreeSpec::leaf("*CQ", H_Q1),
     ])
@@ -61,7 +69,19 @@ pub fn framing_plans(dev: &mut RigDev) {
     dev.plan[H_QF as usize] = Plan::resp(&[Item::F64(-2.5e-3), Item::Expr(b"1,2:3"), Item::Utf8("h\u{e9}")]);
     dev.plan[H_QE as usize] = Plan::resp(Box::leak(Box::new([Item::Err(Error::custom(-113, b"Undefined header")), Item::U8(0)])));
     dev.plan[H_QS as usize] = Plan::resp(&[Item::Block(b"ab;")]);
+    dev.plan[H_QM as usize] = Plan::resp(&MANY);
+    dev.plan[H_QNL as usize] = Plan::resp(&[Item::I64(1), Item::Block(b"abc\n")]);
+    dev.plan[H_QLQ as usize] = Plan::resp(Box::leak(Box::new([
+        Item::Str(b"a-rather-long-segment-before-the-quote\"x"),
+        Item::Err(Error::custom(-300, b"Probe \"A\" fault").extended(b"a-long-device-dependent-text\"q")),
+    ])));
     dev.plan[H_QL as usize] = Plan::resp(&[Item::I64(i64::MIN), Item::Str(b"\"\""), Item::Block(b"0123456789"), Item::F32(f32::NAN), Item::F64(f64::NEG_INFINITY)]);
+}
+
+/// reference text of the 300-element unit
+pub fn many_text() -> &'static str {
+    let v: Vec<&str> = (0..300).map(|_| "7").collect();
+    Box::leak(v.join(",").into_boxed_str())
 }
 
 pub fn kinds(all: bool) -> Vec<Kind> {
@@ -83,6 +103,7 @@ pub fn kinds(all: bool) -> Vec<Kind> {
             Kind { text: ":QFL?", resp: Some("-0.0025,(1,2:3),#13h\u{e9}"), needs_br: false, writes_nothing: false },
             Kind { text: ":QERR?", resp: Some("-113,\"Undefined header\",0"), needs_br: false, writes_nothing: false },
             Kind { text: ":QSEM?", resp: Some("#13ab;"), needs_br: false, writes_nothing: false },
+            Kind { text: ":QNL?", resp: Some("1,#14abc\n"), needs_br: false, writes_nothing: false },
             Kind { text: ":QLON?", resp: Some("-9223372036854775808,\"\"\"\"\"\",#2100123456789,9.91E+37,-9.9E+37"), needs_br: false, writes_nothing: false },
         ]);
     }
@@ -181,6 +202,15 @@ pub fn enumerate(ks: &[Kind], max_units: usize, all_seps: bool) -> Vec<GenMsg> {
             queries: 0,
         });
     }
+    // long units: 300 data elements in one unit (counter boundaries at 256), long strings with quotes
+    for (t, e) in [
+        (":QMAN?".to_string(), format!("{}\n", many_text())),
+        ("QON?;:QMAN?;QON?".to_string(), format!("42;{};42\n", many_text())),
+        (":QLQ?".to_string(), "\"a-rather-long-segment-before-the-quote\"\"x\",-300,\"Probe \"\"A\"\" fault;a-long-device-dependent-text\"\"q\"\n".to_string()),
+        (":QNL?;EV".to_string(), "1,#14abc\n\n".to_string()),
+    ] {
+        out.push(GenMsg { text: t.into_bytes(), expected: e.into_bytes(), queries: 1 });
+    }
     // the query that writes nothing, only together with events (framing of an empty response
     // unit is not pinned by the property)
     for t in ["QNON?", "EV;QNON?", "QNON?;EV", "EV;QNON?;EV\n"] {
@@ -211,12 +241,12 @@ pub fn check_msg(tree: &Node<'static, RigDev>, dev: &mut RigDev, m: &GenMsg) -> 
         return Err((key.into(), format!("`{}` left `{}` in the buffer, reference framing is `{}`", esc(&m.text), esc(&out), esc(&m.expected))));
     }
     // fixed buffer
-    let mut arr: ArrayVec<u8, 256> = ArrayVec::new();
+    let mut arr: ArrayVec<u8, 1024> = ArrayVec::new();
     dev.reset_obs(&m.text);
     let mut ctx = Context::default();
     let r = guarded(|| tree.run(&m.text, dev, &mut ctx, &mut arr)).map_err(|p| ("panic".to_string(), format!("`{}` panicked (ArrayVec): {p}", esc(&m.text))))?;
     if r.is_err() || arr.as_slice() != &m.expected[..] {
-        return Err(("framing-arrayvec".into(), format!("`{}` with ArrayVec<u8,256>: {:?} `{}`, reference `{}`", esc(&m.text), r.err().map(|e| e.get_code()), esc(&arr), esc(&m.expected))));
+        return Err(("framing-arrayvec".into(), format!("`{}` with ArrayVec<u8,1024>: {:?} `{}`, reference `{}`", esc(&m.text), r.err().map(|e| e.get_code()), esc(&arr), esc(&m.expected))));
     }
     Ok(())
 }
@@ -285,7 +315,7 @@ pub fn run(ctx: &'static Ctx) -> i32 {
     c.insert("evaluations".into(), json!(total * 2));
     c.insert("distinct_nontrivial".into(), json!(with_output));
     c.insert("distinct_expected_responses".into(), json!(outcomes.len()));
-    c.insert("rule".into(), json!(format!("every sequence of 1..{max_units} units over {} unit kinds (event with/without parameter, queries returning 1/2/3/5 data of rotating types incl. strings and blocks containing `;` `,`, response headers of one and two levels, relative and common headers) x unit separators {{`;`, `; `, `;\\t `}} x endings {{none, NL, blank, `;`, `; `, ` NL`, `;NL`, TAB}}, all successful; run on Vec<u8> and ArrayVec<u8,256>; buffer compared byte-for-byte with reference framing (units joined by `;`, header SP data joined by `,`, exactly one NL iff any output). Distinct non-trivial = messages with at least one query", ks.len())));
+    c.insert("rule".into(), json!(format!("every sequence of 1..{max_units} units over {} unit kinds (event with/without parameter, queries returning 1/2/3/5 data of rotating types incl. strings and blocks containing `;` `,`, response headers of one and two levels, relative and common headers) x unit separators {{`;`, `; `, `;\\t `}} x endings {{none, NL, blank, `;`, `; `, ` NL`, `;NL`, TAB}}, all successful; run on Vec<u8> and ArrayVec<u8,1024>; buffer compared byte-for-byte with reference framing (units joined by `;`, header SP data joined by `,`, exactly one NL iff any output). Distinct non-trivial = messages with at least one query", ks.len())));
     c.insert("exhaustive".into(), json!(true));
     c.insert("samples".into(), Value::Array(samples));
     ctx.finish(
